@@ -34,7 +34,10 @@ rvars == <<out>>
 
 \* ------------------------------------------------------------ PART 1: statements
 ReadKinds == {"MATCH", "OPTMATCH", "UNWIND", "WITH", "CALL", "RETURN"}
-DataWrites == {"CREATE", "MERGE", "SET", "SETLBL", "REMOVE", "DELETE", "DETACH", "FOREACH"}
+\* SETW / CREATEW: a write FOLLOWED BY A PROJECTION (`SET n.p = 1 WITH n`, `CREATE (:Zed) WITH 1 AS w`): the write is not
+\* the last clause before the closing RETURN, the shape only the clause-pipeline grammar accepts
+ProjectedWrites == {"SETW", "CREATEW"}
+DataWrites == {"CREATE", "MERGE", "SET", "SETLBL", "REMOVE", "DELETE", "DETACH", "FOREACH"} \cup ProjectedWrites
 DdlWrites == {"CRINDEX", "CRCONS", "DRINDEX", "CRVEC", "CRHIER", "DRHIER"}
 WriteKinds == DataWrites \cup DdlWrites
 ExKinds == {"", "EXPLAIN", "PROFILE"}
@@ -63,6 +66,8 @@ ClauseText(k, kc, bound) ==
       [] k = "CREATE"   -> IF U THEN "CREATE (:Zed)" ELSE "create (:Zed)"
       [] k = "MERGE"    -> IF U THEN "MERGE (:Zed)" ELSE "merge (:Zed)"
       [] k = "SET"      -> IF U THEN "SET n.p = 1" ELSE "set n.p = 1"
+      [] k = "SETW"     -> IF U THEN "SET n.p = 1 WITH n" ELSE "set n.p = 1 with n"
+      [] k = "CREATEW"  -> IF U THEN "CREATE (:Zed) WITH 1 AS w" ELSE "create (:Zed) with 1 as w"
       [] k = "SETLBL"   -> IF U THEN "SET n:Extra" ELSE "set n:Extra"
       [] k = "REMOVE"   -> IF U THEN "REMOVE n.age" ELSE "remove n.age"
       [] k = "DELETE"   -> IF U THEN "DELETE n" ELSE "delete n"
@@ -86,6 +91,7 @@ WellFormedStmt(st) ==
     /\ st.ex \in ExKinds /\ st.pre \in Seq(ReadKinds) /\ st.w \in WriteKinds \cup {"none"}
     /\ st.ret \in BOOLEAN /\ st.kc \in CaseKinds /\ st.sep \in SepKinds
     /\ st.pre # <<>> \/ st.w # "none" \/ st.ret
+    /\ st.w \in ProjectedWrites => st.ret             \* a projection must be followed by something
 
 \* is n bound before clause i of cl ?
 BoundBefore(cl, i) == \E j \in 1..i - 1 : cl[j] \in {"MATCH", "OPTMATCH"}
